@@ -58,7 +58,7 @@ package car
 //@   ensures untouched_on_error [C06]: err != nil ==> h.DataOffset == old(h.DataOffset) && h.DataSize == old(h.DataSize) && h.IndexOffset == old(h.IndexOffset)
 
 //@ func NewBlockReader
-//@   requires origin: pos(r) == 0 && sbase(r) == 0
+//@   requires origin [C14]: pos(r) == 0 && sbase(r) == 0
 //@   assume canonical_pragma: true
 //@   let hdr, herr := call[carv1.ReadHeader#0]
 //@   call[Seeker.Seek#0] assume pragma_is_11_bytes: enclen(hdr) == 10
@@ -94,7 +94,7 @@ package car
 //@   ensures eof_clean [C02]: err == io.EOF ==> pos(br.r) == old(pos(br.r)) || (br.opts.ZeroLengthSectionAsEOF && e0 == io.EOF && pos(br.r) == old(pos(br.r)) + 1)
 
 //@ func LoadIndex
-//@   requires origin: pos(r) == 0 && sbase(r) == 0
+//@   requires origin [C03]: pos(r) == 0 && sbase(r) == 0
 //@   assume stream_bound: true
 //@   let pragma, perr := call[carv1.ReadHeader#0]
 //@   loop[0] invariant offset [C03]: sectionOffset == pos(reader) - sbase(reader) - dataOffset
